@@ -826,11 +826,12 @@ end Aux
 open Aux
 
 /-- the shape facts of `check_and_add` / `__init__` that the model relies on hold in the extracted source:
-clock read before the lock, one lock, sweep → test → evict-oldest loop → insert inside one `with` block,
+clock read before the lock, one lock created eagerly in `__init__` (never lazily inside a method), sweep → test → evict-oldest loop → insert inside one `with` block,
 sweep from the front, expiry = reading + ttl -/
 theorem C23_shape :
     clockReadBeforeLock = true ∧ singleLock = true ∧ criticalSectionOrder = true ∧ evictsOldest = true ∧
-      sweepFromFront = true ∧ expiryIsNowPlusTtl = true ∧ capDefaultIsConst = true := by decide
+      sweepFromFront = true ∧ expiryIsNowPlusTtl = true ∧ capDefaultIsConst = true ∧
+      lockCreatedInInit = true := by decide
 
 /-- `__init__` accepts exactly positive ttl and capacity -/
 theorem nc_validate (ttl cap : Int) : validate ttl cap = true ↔ 0 < ttl ∧ 0 < cap := validate_iff ttl cap
